@@ -4,7 +4,7 @@
    proofs/Refinement.v for the two hypotheses on the rule set: rules_ok (side-effect free conditions, assignments
    and control built-ins as actions) and dependency_hypothesis (an assignment changes the from-scratch value only of
    nodes whose snapshot contains the assigned variable's snapshot).  proofs/Findings.v shows the second cannot be
-   dropped (D2/D3, recorded findings). *)
+   dropped (D2, a recorded finding; D3 was repaired in the engine - ResetElement). *)
 From Grule Require Import Base Values Syntax EngineAbs Facts Eval Frame FrameTheorems Refinement RefineTheorems Findings.
 Theorem C01 : forall rules meth panics_inside mutating
   (meth_pure : forall fs f args ret fs', mutating f = false -> meth fs f args = Ok (ret, fs') -> fs' = fs),
